@@ -608,3 +608,49 @@ def pieceGlyphs (cov : Coverage) (cd : ClassDef) (s t : Nat) : List Nat :=
     if s ≤ c ∧ c < t then some (g, c - s) else none)).map (·.1)
 
 end FontVerif.Layout
+
+namespace FontVerif.Layout
+
+/-! ## the size loop of `split_pair_pos_format_1` with the estimate of every piece
+(`graph/splitting/pairpos.rs`; the same loop as `ppf1Step`, recording what it believes each piece
+weighs).  A pair set is `(object id, bytes of the pair set + its device tables)`; identical pair
+sets are ONE object and count once per piece through `visited`.  `fixed = false` is the code as it
+is: at a split the pair set that did not fit keeps the delta computed against the PREVIOUS piece's
+`visited` set (0 bytes if that piece already holds the object) and the set is cleared;
+`fixed = true` is the repair analogous to /repo 2b4b586 (re-count after clearing). -/
+
+structure Ppf1DAcc where
+  start : Nat
+  partialCov : Nat
+  accumulated : Nat
+  visited : List Nat
+  pieces : List (Nat × Nat × Nat)
+
+def ppf1DStep (fixed : Bool) (coverageSize : Nat) (st : Ppf1DAcc) (i : Nat) (ps : Nat × Nat) : Ppf1DAcc :=
+  let ch := childrenSize [ps] st.visited
+  let delta := 2 + ch.1
+  let partialCov := st.partialCov + 2
+  let accumulated := st.accumulated + delta
+  if accumulated + min coverageSize partialCov > 65535 then
+    let ch' := if fixed then childrenSize [ps] [] else (ch.1, [])
+    { start := i, partialCov := 6, accumulated := 10 + (2 + ch'.1), visited := ch'.2,
+      pieces := (st.start, i, st.accumulated) :: st.pieces }
+  else { st with partialCov := partialCov, accumulated := accumulated, visited := ch.2 }
+
+def ppf1DLoop (fixed : Bool) (coverageSize : Nat) : Ppf1DAcc → Nat → List (Nat × Nat) → Ppf1DAcc
+  | st, _, [] => st
+  | st, i, ps :: rest => ppf1DLoop fixed coverageSize (ppf1DStep fixed coverageSize st i ps) (i + 1) rest
+
+/-- pieces `(first pair set, end, estimated bytes of subtable + pair sets)`; `none` = no split -/
+def ppf1DPieces (fixed : Bool) (coverageSize : Nat) (pairSets : List (Nat × Nat)) :
+    Option (List (Nat × Nat × Nat)) :=
+  let st := ppf1DLoop fixed coverageSize ⟨0, 4, 10, [], []⟩ 0 pairSets
+  if st.pieces.isEmpty then none
+  else some (st.pieces.reverse ++ [(st.start, pairSets.length, st.accumulated)])
+
+/-- true size of the piece `s..e`: 10 header bytes, one offset per pair set, every distinct pair-set
+object (with its device tables) once -/
+def ppf1PieceSize (pairSets : List (Nat × Nat)) (s e : Nat) : Nat :=
+  10 + (e - s) * 2 + ((dedupDevs ((pairSets.drop s).take (e - s)) []).map (·.2)).sum
+
+end FontVerif.Layout
